@@ -201,8 +201,10 @@ def check_c15(tier, replay):
         C.log("feature set %s: %d cases, %d different, %.1fs" % (var, n, nd, time.time() - t0))
     if not replay:
         # whether a pattern compiles: the exhaustive grammar families through every feature set
-        for fam in (["group", "class", "uescape"] if tier == "quick" else list(GR.FAMILIES)):
-            path, meta = GR.gen_family(fam, tier, work)
+        # (the thorough tier adds token families at the quick length bounds: the thorough bounds make millions of
+        # strings per family, each compiled under 24 configurations by six binaries)
+        for fam in (["group", "class", "uescape"] if tier == "quick" else [f for f in GR.FAMILIES if f != "chars"]):
+            path, meta = GR.gen_family(fam, "quick", work)
             ref, crashes, n0 = GR.run_grammar(path, work, "gdef")
             for var in VARIANTS:
                 binp = C.build_runner(variant=var)
